@@ -98,6 +98,25 @@ Theorem C12_release_same_class_default : forall mmap gsz st w top st',
 Proof. exact release_same_class_default. Qed.
 Print Assumptions C12_release_same_class_default.
 
+(** The full-strength statement "every custom stack size the setter accepts gets a stack of that
+    size" is refuted (finding C12-stack-size-above-1GiB; the real library crashes, see notes/C12.md):
+    for a request above 2^30 (up to 2^32) the model of get_new_myth_thread_struct_stack leaves
+    the free-list array in every state ... *)
+Theorem C12_custom_size_above_1GiB_refuted : forall mmap gsz st w n,
+  (2 ^ 30 < n)%Z -> (n + 4095 <= 2 ^ 32)%Z ->
+  exists i, stack_get mmap gsz st w n = SOutOfRange i /\ (31 <= i <= 32)%Z.
+Proof. exact stack_above_1GiB_out_of_range. Qed.
+Print Assumptions C12_custom_size_above_1GiB_refuted.
+
+(** ... and a request of 4 GiB + 4 KiB is served with a 4 KiB block whose "top" lies 4 GiB above
+    it.  [C12_release_same_class] is the partial statement under the exact guard (rounded size
+    at most 2^30) that excludes these sizes. *)
+Theorem C12_custom_size_4GiB_refuted : forall mmap gsz w,
+  exists top st', stack_get mmap gsz s_init w (2 ^ 32 + 4096) = SOk top st' /\
+    fl_regs (s_fl st') = [(mmap [] 4096, 4096)%Z] /\ top = (mmap [] 4096 + (2 ^ 32 + 4096) - 16)%Z.
+Proof. exact stack_4GiB_refuted. Qed.
+Print Assumptions C12_custom_size_4GiB_refuted.
+
 (** * (2) blocks never overlap *)
 
 (** For every oracle that returns fresh regions, every history of allocations and well-formed
